@@ -4,7 +4,8 @@
     classes and the XSD facets, all re-extracted from /repo on this run. *)
 From V.lib Require Import Prelude PyFloat PyVal.
 From V.model Require Import SimpleTypeLib.
-From V.proofs Require Import PyFloat_proofs SimpleTypeLib_proofs C11_instance C11_float_instance C11_write_instance C11_rows_custom.
+From V.proofs Require Import PyFloat_proofs SimpleTypeLib_proofs C11_instance C11_float_instance C11_write_instance C11_rows_custom
+  C11_regex C11_patterns C11_read_instance C11_rows_custom_read.
 From V.gen Require Import GenC11.
 
 Theorem C11_write_ok_sound : forall d t, write_ok d t = true ->
@@ -160,6 +161,49 @@ Print Assumptions C11_no_custom_write_failures.
 
 Example C11_ex_custom_rows : (0 < length (filter (fun p => N.eqb (snd p) 0) custom_verdicts))%nat.
 Proof. exact custom_rows_judged. Qed.
+
+(** R for the classes without a canonical reader descriptor, per ATTRIBUTE ROW: class-level read
+    theorems on the regenerated code (proofs/C11_read_instance.v: integer, percent-literal,
+    universal-measure, xsd:double readers; CPython limits as explicit length hypotheses) lifted to
+    every row whose reader is that class, against the row's own lexical space (pattern facets by
+    their transcribed regular expressions) *)
+Theorem C11_R_custom_rows : forall r c, In (r, c) (combine rows row_classes) -> r_custom_verdict r c = 0%N ->
+  forall s, row_space r s = true -> (N.of_nat (length s) <= r_custom_limit c)%N ->
+  exists v, ar_from_xml r (PStr s) = Ok v.
+Proof. exact R_rows_custom. Qed.
+Print Assumptions C11_R_custom_rows.
+
+Theorem C11_R_custom_rows_lex : forall r c, In (r, c) (combine rows row_classes) -> r_custom_verdict r c = 0%N ->
+  is_double (ar_lex r) = false ->
+  forall s, lex_ok (ar_lex r) s = true -> (N.of_nat (length s) <= r_custom_limit c)%N ->
+  exists v, ar_from_xml r (PStr s) = Ok v.
+Proof. exact R_rows_custom_lex. Qed.
+Print Assumptions C11_R_custom_rows_lex.
+
+(** INSTANCE: the only rows of such classes that cannot read their whole lexical space are the
+    recorded ones (guide-name alternative of ST_AdjCoordinate read through ST_Coordinate) *)
+Theorem C11_custom_read_failures_known :
+  forallb (fun p => negb (snd p =? 1)%N || memN (fst p) known_read || memN (fst p) guide_name_rows) custom_read_verdicts = true.
+Proof. exact custom_read_failures_known. Qed.
+Print Assumptions C11_custom_read_failures_known.
+
+(** and those rows really fail (the recorded finding is real in the model too) *)
+Theorem C11_guide_name_rows_refuted : forall r c, In (r, c) (combine rows row_classes) -> guide_name_row (r, c) = true ->
+  exists s, lex_ok (ar_lex r) s = true /\ ar_from_xml r (PStr s) = Err ValueErr.
+Proof. exact guide_name_rows_refuted. Qed.
+Print Assumptions C11_guide_name_rows_refuted.
+
+(** the CPython limits in the hypotheses above are necessary *)
+Theorem C11_R_int_digit_limit_refuted : exists s, lex_ok (LInt 0 158400) s = true
+  /\ ST_TextSpacingPoint__from_xml (PStr s) = Err ValueErr /\ ST_Angle__from_xml (PStr s) = Err ValueErr.
+Proof. exact R_int_digit_limit_refuted. Qed.
+Theorem C11_R_Coordinate_long_measure_refuted : exists s, lex_ok (LUnivMeasure true) s = true
+  /\ (N.of_nat (length s) <= int_max_str_digits)%N
+  /\ ST_Coordinate__from_xml (PStr s) = Err OverflowErr /\ ST_Coordinate32__from_xml (PStr s) = Err OverflowErr.
+Proof. exact R_Coordinate_long_measure_refuted. Qed.
+
+Example C11_ex_custom_read_rows : (0 < length (filter (fun p => N.eqb (snd p) 0) custom_read_verdicts))%nat.
+Proof. exact custom_read_rows_judged. Qed.
 
 (** non-vacuity *)
 Example C11_ex_rows : (0 < length (filter (fun r => N.eqb (w_verdict r) 0) rows))%nat
